@@ -5,7 +5,8 @@
    input (first entry = operation)
      [1; op; has_coll; ncoll; coll_0..; nc; ns; xd; x_00 .. ]     car(x / xd, collection, operator); has_coll = 2: x has an
                                                                   integer dtype (result cast by truncation on scatter)
-     [8; nc; has_shift; has_labels; label_0 ..]                   destripe: trace of (stage code, rows)
+     [8; nc; has_shift; has_labels; label_0 ..]                   destripe: trace of (stage code, rows); has_labels = 2:
+                                                                  channel_labels=True (labels = what detect_bad_channels returned)
      [2; p; q; nw; wd; w_0..; en; ed; nc; ns; xd; x_00 ..]        agc(x / xd, wl, si, epsilon) with wl/si = p/q,
                                                                   normalised window w/wd (nw entries), epsilon = en/ed
      [3; n; label_0 ..]                                           destripe: inside / outside index vectors
@@ -96,13 +97,19 @@ Definition run (inp : list Z) : list Z :=
                         k_gpu := gpu |} coll)
   | 6 :: si :: dx :: vb :: bt :: pad :: tap :: lagc :: kf :: ncoll :: r =>
       let coll := firstn (Z.to_nat ncoll) r in
+      if negb (fk_args_ok {| f_si := si; f_dx := dx; f_vbounds := vb; f_btype := bt; f_ntr_pad := pad;
+                             f_ntr_tap := tap; f_lagc := lagc; f_kfilt := kf |}) && negb (ncoll =? 0)
+      then [-1]
+      else
       enc_list enc_fcall
         (fk_calls {| f_si := si; f_dx := dx; f_vbounds := vb; f_btype := bt; f_ntr_pad := pad;
                      f_ntr_tap := tap; f_lagc := lagc; f_kfilt := kf |} coll)
   | 8 :: nc :: hs :: hl :: r =>
       flat_map (fun p => [fst p; snd p])
-        (destripe_trace nc (hs =? 1) (if hl =? 1 then Some (firstn (Z.to_nat nc) r) else None))
+        (if hl =? 2 then destripe_trace_detect nc (hs =? 1) (firstn (Z.to_nat nc) r)
+         else destripe_trace nc (hs =? 1) (if hl =? 1 then Some (firstn (Z.to_nat nc) r) else None))
   | [7; ver; nc] =>
+      if negb (adc_version_ok ver) then [-1] else
       snd (adc_params ver) :: enc_list enc_adc (adc_shifts ver nc)
   | _ => [-999]
   end.
